@@ -7,6 +7,12 @@ EXPLANATION = ("CrossHair (z3) exploration of requests against the real web-API 
                "replace= / format= values, child kind, link metadata, warm or cold gateway node cache) is chosen by symbolic selectors: path-per-input, the "
                "engine explores every selector combination within the bounds and the solver decides the selector arithmetic; once a path has fixed "
                "all selectors the real code runs on concrete values with opcode tracing switched off (the web stack costs 5-10 s per request under tracing).")
+TECHNIQUE = ("path-per-input symbolic execution (CrossHair + z3): the request is chosen by symbolic selectors, the solver decides the selector "
+             "arithmetic and the engine covers every selector combination within the bounds; each path then runs the real web-API code on concrete "
+             "values (tracing off); reachability twin per obligation; concrete replay of counterexamples")
+LEVEL_NOTE = ("Partial claim over a bounded request matrix: no symbolic data flows through the web code itself (names, bodies, key material and metadata "
+              "values are fixed), so within the bounds the verdict is exhaustive over request shapes only. Trusted: CrossHair 0.0.110 path exploration, z3 5.1, "
+              "the in-memory grid stand-ins listed in the evidence file.")
 ASSUMPTIONS = [
     "PARTIAL claim.  Covered: every request shape listed in the obligations, on trees of depth <= 3 built from 15 capability kinds (CHK, LIT, SSK rw/ro, MDMF rw/ro, "
     "DIR2 rw/ro, DIR2-MDMF rw/ro, DIR2-CHK, DIR2-LIT, unknown rw+ro / ro. / imm.) with SDMF and MDMF directories.  Key material, names ('new', 'leaf', ...), "
